@@ -479,12 +479,12 @@ fn pstep() -> impl Strategy<Value = PStep> {
         2 => any::<u16>().prop_map(|op| PStep::DropOp { op }),
         8 => (any::<u16>(), any::<u16>(), any::<bool>(), proptest::bool::weighted(0.08)).prop_map(|(op, frac, more, fail)| PStep::Complete { op, frac, more, fail }),
         6 => Just(PStep::RingPoll),
-        1 => (any::<u16>(), any::<u16>()).prop_map(|(buf, frac)| PStep::Truncate { buf, frac }),
+        2 => (any::<u16>(), prop_oneof![1 => Just(0u16), 2 => any::<u16>()]).prop_map(|(buf, frac)| PStep::Truncate { buf, frac }),
         1 => (any::<u16>(), any::<u8>()).prop_map(|(buf, len)| PStep::Extend { buf, len }),
         2 => (any::<u16>(), prop_oneof![2 => Just(0u16), 1 => any::<u16>()], any::<u16>()).prop_map(|(buf, at, len)| PStep::Remove { buf, at, len }),
         3 => any::<u16>().prop_map(|buf| PStep::Release { buf }),
         3 => (any::<u16>(), proptest::bool::weighted(0.3)).prop_map(|(buf, on_thread)| PStep::DropBuf { buf, on_thread }),
-        2 => (any::<u16>(), 0u8..3).prop_map(|(buf, form)| PStep::ReRead { buf, form }),
+        4 => (any::<u16>(), 0u8..3).prop_map(|(buf, form)| PStep::ReRead { buf, form }),
         1 => Just(PStep::ClonePool),
         1 => Just(PStep::DropPoolHandle),
     ]
